@@ -13,6 +13,7 @@ HERE = os.path.dirname(os.path.abspath(__file__))
 ROOT = os.path.dirname(HERE)
 sys.path.insert(0, HERE)
 import gen_programs
+import trace as tracemod
 
 CONC = os.path.join(ROOT, "harness/target/debug/conc")
 MODEL = os.path.join(ROOT, "coq/build/model_run")
@@ -90,9 +91,15 @@ def run_program(prog, seed, policy, base, family="corpus", replay=None):
     flags = [l for l in impl if l.startswith(". FAULT") or l.startswith(". PANIC") or l.startswith(". HARNESS-ERROR")
              or l.startswith(". DEADLOCK") or l.startswith(". LIMIT") or l.startswith(". REPLAY-DIVERGED")]
     res["flags"] = flags
+    try:
+        findings, metrics = tracemod.analyse(tracemod.parse_program(open(prog).read()), impl)
+    except Exception as ex:  # an oracle crash must not pass silently
+        findings, metrics = [("HARNESS", "oracle crashed: %r" % (ex,))], {}
+    res["findings"] = findings
+    res["metrics"] = metrics
     if d is None:
         res["status"] = "ok"
-        if not flags:
+        if not flags and not findings:
             for ext in (".impl", ".model", ".sched", ".stats", ".prog"):
                 # keep disk usage low: remove artefacts of agreeing, unflagged runs
                 if ext == ".prog" and family == "corpus":
@@ -122,7 +129,7 @@ def run_batch(families, n, seed, workdir, policies=("sticky", "pct", "spurious")
 
 def summarize(results):
     out = {"runs": len(results), "ok": 0, "diverged": [], "failed": [], "flags": [], "steps": 0,
-           "events": 0, "stats": {}, "by_family": {}, "digests": set()}
+           "events": 0, "stats": {}, "by_family": {}, "digests": set(), "findings": [], "max_load_steps": 0}
     for r in results:
         fam = out["by_family"].setdefault(r["family"], {"runs": 0, "ok": 0, "steps": 0})
         fam["runs"] += 1
@@ -135,6 +142,9 @@ def summarize(results):
             out["failed"].append(r)
         if r.get("flags"):
             out["flags"].append(r)
+        for f in r.get("findings", []):
+            out["findings"].append((f[0], f[1], r["base"]))
+        out["max_load_steps"] = max(out["max_load_steps"], r.get("metrics", {}).get("max_load_steps", 0))
         out["steps"] += r.get("steps", 0)
         fam["steps"] += r.get("steps", 0)
         out["events"] += r.get("events", 0)
@@ -168,3 +178,6 @@ if __name__ == "__main__":
         print("FAILED", r["status"], r["base"], r["impl_exit"], r["stderr"][-300:])
     for r in s["flags"][:5]:
         print("FLAG", r["base"], r["flags"])
+    print("max_load_steps", s["max_load_steps"], "findings", len(s["findings"]))
+    for f in s["findings"][:10]:
+        print("FINDING", f)
